@@ -1747,6 +1747,21 @@ def _aopf(w, c):
     return _FOPS[c['sa'][0]](T(w, c), pyval(w, c['va'][0]))
 
 
+@op('aopaf')
+def _aopaf(w, c):
+    """Array op Array where at least one side holds floats: Python's result for every pair of items is an oracle input"""
+    a, b = T(w, c), w.objs[c['xs'][0]['id']]
+    res = []
+    for x, y in zip(a.tolist(), b.tolist()):
+        try:
+            r = _FOPS[c['sa'][0]](x, y)
+            res.append(enc.enc_value(float(r)) if isinstance(r, (int, float)) and not isinstance(r, bool) else [13])
+        except (ZeroDivisionError, OverflowError, ValueError):
+            res.append([0])
+    c['_oracle'] = res
+    return _FOPS[c['sa'][0]](a, b)
+
+
 @op('aiopf')
 def _aiopf(w, c):
     _float_oracle(w, c)
